@@ -1,6 +1,8 @@
 //! vacct: account-level monitors (C01 C02 C12 C13 C16 C18 C19 C20, C03 local part).
 mod c01;
 mod c02;
+mod c12;
+mod c20;
 mod common;
 
 #[global_allocator]
@@ -14,6 +16,8 @@ fn main() {
     match args.check.as_str() {
         "c01" => rt.block_on(c01::run(&args, &mut rep)),
         "c02" => rt.block_on(c02::run(&args, &mut rep)),
+        "c12" => rt.block_on(c12::run(&args, &mut rep)),
+        "c20" => rt.block_on(c20::run(&args, &mut rep)),
         other => {
             eprintln!("vacct: unknown check {}", other);
             std::process::exit(2);
